@@ -32,7 +32,7 @@ ANCHORS = [
     "acnportal.acndata.utils:parse_http_date",
     "acnportal.acndata.utils:parse_dates",
 ]
-REQUIRED = ["scenarios_judged", "multi_page_scenarios", "empty_page_scenarios", "zero_document_scenarios", "timeseries_scenarios",
+REQUIRED = ["interleaved_scenarios", "scenarios_judged", "multi_page_scenarios", "empty_page_scenarios", "zero_document_scenarios", "timeseries_scenarios",
             "time_filter_scenarios", "date_fields_checked", "timeseries_timestamps_checked", "timeseries_straddling_offset_change", "round_trips", "invalid_site_rejections",
             "regime:dst-transition-instant"]
 BUDGET_S = {"quick": 200, "thorough": 2400}
@@ -58,6 +58,10 @@ def cases(seed, tier):
                     "empties": ([rng.randint(1, 3)] if rng.random() < 0.3 else []) + ([rng.randint(1, 6)] if rng.random() < 0.1 else []),
                     "empty_last": rng.random() < 0.15, "extra_links": rng.random() < 0.7, "ts": rng.random() < 0.2,
                     "mode": rng.choice(["all", "time", "time", "args"])})
+    for i in range(ns // 12):
+        # two (or three) generators of one client, alive at the same time and consumed interleaved
+        out.append({"kind": "interleave", "seed": rng.randrange(1 << 40), "cap": rng.choice([1, 2, 3, 7]), "tz": rng.choice(ZONES),
+                    "ns": [rng.choice([0, 1, 3, 8, 15]) for _ in range(rng.choice([2, 2, 3]))]})
     for i in range(nr):
         out.append({"kind": "roundtrip", "seed": rng.randrange(1 << 40), "n": 1000})
     return out
@@ -320,7 +324,50 @@ def _run_invalid(obs):
     obs.evals = 12
 
 
+def _run_interleave(case, obs):
+    import acnportal.acndata.data_client as dc
+    rng = random.Random(case["seed"])
+    sites = ["caltech", "jpl", "office001"][:len(case["ns"])]
+    by_site = {}
+    for site, n in zip(sites, case["ns"]):
+        _, docs = _docs(rng, n, case["tz"], False)
+        for d in docs:
+            d["_id"] = site + "-" + d["_id"]
+        by_site[site] = docs
+    fake = FakeRequests([], cap=case["cap"], by_site=by_site)
+    s0 = SOCK["n"]
+    got = {s_: [] for s_ in sites}
+    with Installed(fake):
+        client = dc.DataClient("tok", "https://fake.invalid/api/v1/")
+        gens = {s_: client.get_sessions(s_) for s_ in sites}
+        alive = list(sites)
+        steps = 0
+        while alive and steps < 10000:
+            steps += 1
+            s_ = rng.choice(alive)
+            try:
+                got[s_].append(next(gens[s_])["_id"])
+            except StopIteration:
+                alive.remove(s_)
+    cfg = dict(sites=sites, sizes=case["ns"], cap=case["cap"])
+    obs.ev("interleaved_scenarios")
+    if SOCK["n"] != s0:
+        obs.violate("transport_not_intercepted", "a socket was opened while the fake transport was installed", config=cfg)
+        return
+    for s_ in sites:
+        exp = [d["_id"] for d in by_site[s_]]
+        if got[s_] != exp:
+            obs.violate("interleaved_generators_interfere", f"two generators of one client consumed alternately: site {s_} yielded "
+                        f"{got[s_][:8]} (n={len(got[s_])}), server has {exp[:8]} (n={len(exp)})", config=cfg)
+            return
+    if sum(1 for n in case["ns"] if n > case["cap"]) >= 2:
+        obs.nontrivial()
+    obs.sample = {"kind": "interleave", "config": cfg, "requests": len(fake.log)}
+
+
 def run_case(case, obs):
+    if case["kind"] == "interleave":
+        return _run_interleave(case, obs)
     if case["kind"] == "paging":
         _run_paging(case, obs)
     elif case["kind"] == "roundtrip":
